@@ -11,6 +11,26 @@ CHECKS = {
     note="Trusted: TLC, exact Fraction conversion of IEEE values, the unit bound HermiteUnits=32 (eps x condition scale) in spec/Bounds.tla. float16 / torch not covered.",
     technique="TLC exhaustive small-scope model + TLC-generated cases replayed into the code, judged by TLA+ (LookupJudge, HermiteJudge)",
     design="6/C17"),
+ "C03": dict(level="model_checking",
+    text="TLC explores the OdeSystem.tla design model (integrate loop with clamp, direction fixing, halving, continuation, events, faults) exhaustively on small tick ranges for every sign/direction pattern and checks FirstRowIsInitial, SegmentMonotone, EndsAtTarget, NoOvershootOnCommit, Progress; every execution of the real OdeSystem over a lattice of families x placements x dt x call sequences is recorded by a zero-hook sensor and validated event by event against the TLA+ monitor OdeTrace.tla (clauses C03.*), which re-derives the committed rows and compares them with the public state.",
+    note="Trusted: TLC; exact interning of floats to ranks/ids (fractions.Fraction); EndUnits=32 / UlpFew=4 in spec/Bounds.tla. The model abstracts time to integer ticks and states to step provenance. float16/torch not covered.",
+    technique="TLA+ design model checked by TLC + trace validation of the real code against a TLA+ monitor (OdeTrace.tla)", design="6/C03"),
+ "C04": dict(level="model_checking",
+    text="OdeSystem.tla: FixedStepsEqualDt, FixedDtKeptBetweenSteps, NoOvershootOnCommit for every placement of the span (the deviations absFinalClamp / dirFromSystemSpan / clampAdoptsDt are shown to violate them); traces of all fixed-step families are validated by OdeTrace.tla (C04.* clauses: step is dt or the exact remainder, never longer, clamp only when needed, returned step and next step equal the request, implicit methods shorten only after a failed stage solve); shift and reflection twins are compared by TwinJudge.tla.",
+    note="Twin runs use dyadic shifts and steps so time arithmetic is exact; state bounds TwinRoundingUnitsPerStep=16 / TwinTolUnits=100 in spec/Bounds.tla.",
+    technique="TLC model checking + trace validation (OdeTrace.tla) + twin-run judge (TwinJudge.tla)", design="6/C04"),
+ "C05": dict(level="model_checking",
+    text="OdeSystem.tla with an adaptive environment integrator (shorter returned steps, proposed next steps) is model-checked for overshoot/progress; the attempt protocol of every integrator call in traces of the 9 embedded pairs and Richardson wrappers (both directions, dt0 from 1e-4 to 3x span, tolerances 1e-3..1e-11) is validated by OdeTrace.tla (retry strictly shrinks with the same sign, a rejected or unconverged attempt is never returned, an accepted step is never dropped, unmet tolerances raise with only finite states recorded); accuracy is decided by Accuracy.tla on problems whose rational solutions the specification supplies.",
+    note="Accuracy on rational-solution problems only (TLC cannot supply exp/sin); ModestK=10 x amplification bound. Random linear systems not covered.",
+    technique="TLC model checking + trace validation (OdeTrace.tla) + spec-supplied exact solutions (Accuracy.tla)", design="6/C05"),
+ "C09": dict(level="model_checking",
+    text="OdeSystem.tla: TerminalStop, PiecesAreSteps, SegmentMonotone with roots in interiors, on boundaries and at the start, nested landing call, continuation and faults (deviations keepRolledBackPiece / frontInsert violate PiecesAreSteps); traces with mixes of terminal/non-terminal events, infinite targets, both directions, continuation are validated by OdeTrace.tla incl. the ground truth defined by the scenario (earliest terminal root along the direction).",
+    note="Ground truth for time events only; state events on protocol clauses. Continuation does not re-arm the stopping event.",
+    technique="TLC model checking + trace validation (OdeTrace.tla)", design="6/C09"),
+ "C20": dict(level="model_checking",
+    text="At every event of every trace OdeTrace.tla compares nfev with the independent count of completed user right-hand-side calls since construction/reset and njev with the count of Jacobian requests, and checks the callback protocol (order, exactly once per recorded outer step, after the row is visible, assigned dt adopted, none inside the terminal landing); two systems built from one DiffRHS are checked to count separately (TwinJudge.tla).",
+    note="Counters come from wrappers installed by the sensor (WrappedRhs, a logging DiffRHS subclass).",
+    technique="trace validation against a TLA+ monitor (OdeTrace.tla), TLC design model", design="6/C20"),
 }
 
 NOT_YET = "check not built yet (work in progress, see DESIGN.md section 11)"
